@@ -19,7 +19,10 @@ type gateSvc struct {
 	mu      sync.Mutex
 	cur     map[string]int // name -> current index (version = index)
 	hold    atomic.Bool
-	gate    chan struct{}
+	// readFirst: a held request has already read the value it will answer with (the reply is
+	// delayed, not the read)
+	readFirst atomic.Bool
+	gate      chan struct{}
 	waiting atomic.Int32
 	// conditional (poll) requests waiting at the gate at the same time: one poll asks for one
 	// name at a time, so more than one means two rounds of requests are running
@@ -69,10 +72,17 @@ func (g *gateSvc) GetIfChanged(ctx context.Context, name string, old api.SecretV
 		}
 	}
 	defer g.condWaiting.Add(-1)
+	var v *api.SecretValue
+	early := g.readFirst.Load()
+	if early {
+		v = g.value(name)
+	}
 	if err := g.wait(ctx); err != nil {
 		return nil, err
 	}
-	v := g.value(name)
+	if !early {
+		v = g.value(name)
+	}
 	if v == nil {
 		return nil, api.ErrNotFound
 	}
@@ -140,6 +150,13 @@ func traceConcStore(t *testing.T, o opts) {
 			handles["e"] = hA
 			handles["e'"] = hB
 		}
+		// an updater on the late-flight name: it must keep following installs like any other
+		type builtE struct{ idx int }
+		updE, errE := setec.NewUpdater(context.Background(), st, "e", func(b []byte) (*builtE, error) {
+			_, idx, _ := strings.Cut(string(b), "#")
+			i, err := strconv.Atoi(idx)
+			return &builtE{idx: i}, err
+		})
 		// an updater on "a", read concurrently by every reader (C15 under the race detector)
 		type built struct{ idx int }
 		var ubad, unonmono atomic.Int64
@@ -222,6 +239,40 @@ func traceConcStore(t *testing.T, o opts) {
 				}
 			}()
 		}
+		// what a caller sees right after its Refresh returned successfully is a floor for every
+		// later read (a completed poll is never undone by an older one finishing late)
+		var floorMu sync.Mutex
+		floor := map[string]int{}
+		belowFloor := 0
+		readIdx := func(n string) int {
+			hmu.RLock()
+			hd := handles[n]
+			hmu.RUnlock()
+			if hd == nil {
+				return -1
+			}
+			idx := -1
+			func() {
+				defer func() { recover() }()
+				_, s, _ := strings.Cut(string(hd.Get()), "#")
+				idx, _ = strconv.Atoi(s)
+			}()
+			return idx
+		}
+		refreshAndRecord := func() {
+			if st.Refresh(context.Background()) != nil {
+				return
+			}
+			for _, n := range []string{"a", "b", "c", "d", "e"} {
+				if i := readIdx(n); i >= 0 {
+					floorMu.Lock()
+					if i > floor[n] {
+						floor[n] = i
+					}
+					floorMu.Unlock()
+				}
+			}
+		}
 		windows, stalled := 0, 0
 		rounds := 6 + r.Intn(6)
 		for round := 0; round < rounds; round++ {
@@ -239,10 +290,44 @@ func traceConcStore(t *testing.T, o opts) {
 			// overlapping refreshes - two explicit ones and a background tick - must be coalesced
 			// into one round of requests
 			overlap := r.Intn(2) == 0
+			abandon := r.Intn(3) == 0
+			armed := make(chan struct{}) // closed once the scenario's calls are all under way
 			go func() {
 				defer close(done)
 				var pw sync.WaitGroup
-				if overlap {
+				if !abandon {
+					close(armed)
+				}
+				if abandon {
+					// a background poll is in flight and held (its first reply already read: a newer
+					// version than the store has); the service moves on; a caller joins the poll and
+					// gives up; the callers after it must still share the one round of requests -
+					// a second round could finish first and then be overwritten by the older one
+					for _, n := range []string{"a", "b", "c", "d", "e"} {
+						g.bump(n)
+					}
+					g.readFirst.Store(true)
+					pw.Add(1)
+					go func() { defer pw.Done(); tick.Poll() }()
+					for lim := time.Now().Add(5 * time.Second); g.waiting.Load() == 0 && time.Now().Before(lim); {
+						time.Sleep(time.Millisecond)
+					}
+					for _, n := range []string{"a", "b", "c", "d", "e"} {
+						g.bump(n)
+					}
+					cx, cancel := context.WithTimeout(context.Background(), 5*time.Millisecond)
+					st.Refresh(cx)
+					cancel()
+					for i := 0; i < 2; i++ {
+						pw.Add(1)
+						go func() { defer pw.Done(); refreshAndRecord() }()
+					}
+					// give a second round (there must be none) the time to reach the gate
+					for lim := time.Now().Add(50 * time.Millisecond); g.condWaiting.Load() < 2 && time.Now().Before(lim); {
+						time.Sleep(time.Millisecond)
+					}
+					close(armed)
+				} else if overlap {
 					for i := 0; i < 2; i++ {
 						pw.Add(1)
 						go func() { defer pw.Done(); st.Refresh(context.Background()) }()
@@ -311,18 +396,37 @@ func traceConcStore(t *testing.T, o opts) {
 					stalled++
 				}
 			}
+			<-armed
 			g.hold.Store(false)
+			g.readFirst.Store(false)
 			close(g.gate)
 			<-done
 			<-lookDone
 			g.gate = make(chan struct{})
+			time.Sleep(2 * time.Millisecond) // let a straggling older round finish
+			floorMu.Lock()
+			for n, f := range floor {
+				if i := readIdx(n); i >= 0 && i < f {
+					belowFloor++
+				}
+			}
+			floorMu.Unlock()
 		}
 		cu := concUpdater(g, st)
 		// quiescent: after one more successful refresh every handle - however it was obtained -
 		// yields the service's current version of its secret
 		staleAfter := -1
+		updEStale := 0
 		if err := st.Refresh(context.Background()); err == nil {
 			staleAfter = 0
+			if errE == nil {
+				g.mu.Lock()
+				curE := g.cur["e"]
+				g.mu.Unlock()
+				if v := updE.Get(); v == nil || v.idx != curE {
+					updEStale = 1
+				}
+			}
 			hmu.RLock()
 			for n, hd := range handles {
 				func() {
@@ -353,8 +457,8 @@ func traceConcStore(t *testing.T, o opts) {
 		afterClose := reads.Load() - afterBefore
 		close(stop)
 		wg.Wait()
-		emit("concstore\treaders=%d\treads=%d\tbad=%d\twrongname=%d\tnonmono=%d\twindows=%d\tstalled=%d\tpanics=%d\tafterclose=%d\tdropped_pinned=%d\tupd_bad=%d\tupd_nonmono=%d\tlookup_fail=%d\tmax_cond_waiting=%d\tstale_after_refresh=%d\tlate_flight_fail=%d\tlookup_panics=%d\t%s",
-			nreaders, reads.Load(), bad.Load(), wrong.Load(), nonmono.Load(), windows, stalled, panics.Load(), afterClose, dropped, ubad.Load(), unonmono.Load(), lookupFail.Load(), g.maxCondWaiting.Load(), staleAfter, lateFlight, lookupPanics.Load(), cu)
+		emit("concstore\treaders=%d\treads=%d\tbad=%d\twrongname=%d\tnonmono=%d\twindows=%d\tstalled=%d\tpanics=%d\tafterclose=%d\tdropped_pinned=%d\tupd_bad=%d\tupd_nonmono=%d\tlookup_fail=%d\tmax_cond_waiting=%d\tstale_after_refresh=%d\tlate_flight_fail=%d\tlookup_panics=%d\tupd_e_stale=%d\tbelow_floor=%d\t%s",
+			nreaders, reads.Load(), bad.Load(), wrong.Load(), nonmono.Load(), windows, stalled, panics.Load(), afterClose, dropped, ubad.Load(), unonmono.Load(), lookupFail.Load(), g.maxCondWaiting.Load(), staleAfter, lateFlight, lookupPanics.Load(), updEStale, belowFloor, cu)
 	}
 }
 
